@@ -1,5 +1,6 @@
 """In-process z3 (5.1 wheel) for the many small branch decisions of the forking harnesses
 (C03, C11, C14).  Heavy identities never come here (subprocess + wall-clock kill instead)."""
+import time
 from fractions import Fraction
 
 from . import term as tm
@@ -16,6 +17,7 @@ class InProc:
             raise RuntimeError("z3 python bindings not available (run ./setup.sh)")
         self.cache = {}
         self.timeout_ms = timeout_ms
+        self.seconds = 0.0
         self.queries = 0
         self.ints = set(ints)          # variable names of Int sort (LIA harnesses)
 
@@ -77,7 +79,9 @@ class InProc:
         for a in axioms:
             s.add(self.conv(a))
         self.queries += 1
+        _t0 = time.time()
         r = s.check()
+        self.seconds += time.time() - _t0
         if r == z3.sat:
             model = {}
             if want_model:
